@@ -142,7 +142,8 @@ class Instrumented:
         orig_run_tape = F.run_tape
         pend = [False]
         import time as _time
-        case_deadline = _time.time() + 6.0 * self.factor
+        from . import vmrun as _vm
+        case_deadline = _time.time() + _vm.case_seconds(self.factor)
         budget = 30_000 * self.factor
         def run_tape(tape, stack, cache, additional_flags={}):
             level[0] += 1
@@ -228,7 +229,7 @@ def run_instrumented(cfg, cache_in: dict, script: bytes, env):
     Returns (status, tape, stack, cache, trace). A case that exhausts the run_tape budget is run once more with 15x the budget."""
     from . import vmrun
     out = _run_instrumented(cfg, cache_in, script, env, 1)
-    if out[0] == 'ERR:HarnessAbort' and vmrun.RUNAWAYS[0] < 3:
+    if out[0] == 'ERR:HarnessAbort' and vmrun.RUNAWAYS[0] < vmrun.RUNAWAY_LIMIT:
         out = _run_instrumented(cfg, cache_in, script, env, 15)
         if out[0] == 'ERR:HarnessAbort': vmrun.RUNAWAYS[0] += 1
     return out
